@@ -85,10 +85,19 @@ func needsFreshProcess(lines []string) bool {
 
 type childResult struct {
 	Files map[string][]byte `json:"files"`
+	UI    []string          `json:"ui"` // what each line printed through the UI
 }
 
 // childSession runs the lines in a new process of this very binary (-extra child=<file with the JSON lines>).
 func childSession(lines []string) map[string][]byte {
+	r := childRun(lines)
+	if r == nil {
+		return nil
+	}
+	return r.Files
+}
+
+func childRun(lines []string) *childResult {
 	f, err := os.CreateTemp("", "c10-child-*.json")
 	if err != nil {
 		run.Infra(err.Error())
@@ -111,7 +120,7 @@ func childSession(lines []string) map[string][]byte {
 		run.Infra("child session: no result")
 		return nil
 	}
-	return res.Files
+	return &res
 }
 
 func childMain(path, out string) {
@@ -120,7 +129,11 @@ func childMain(path, out string) {
 	json.Unmarshal(b, &lines)
 	prof = theProfile()
 	r := session(lines)
-	jb, _ := json.Marshal(childResult{Files: r.Files})
+	cr := childResult{Files: r.Files}
+	for i := range lines {
+		cr.UI = append(cr.UI, r.UIOf(i))
+	}
+	jb, _ := json.Marshal(cr)
 	os.WriteFile(out, jb, 0o644)
 }
 
@@ -203,8 +216,11 @@ func interactiveCase(raw json.RawMessage, c *scase) {
 		key := "ui:" + strings.Join(pre, "\n")
 		want, ok := refCache[key]
 		if !ok {
-			ref := session(append(pre, "top >probe"))
-			want = []byte(ref.UIOf(len(pre) - 1))
+			// the help text and the option listing come from process-wide tables: the reference is a fresh process
+			if cr := childRun(append(append([]string{}, pre...), "top >probe")); cr != nil && len(cr.UI) >= len(pre) {
+				want = []byte(cr.UI[len(pre)-1])
+				run.Counter("fresh_process_references", 1)
+			}
 			refCache[key] = want
 		}
 		if got := r.UIOf(i); got != string(want) {
